@@ -25,9 +25,14 @@ type delaySpec struct {
 	Until bool          `json:"until,omitempty"` // delay.Until(now+Off) instead of delay.For(Off)
 	Off   time.Duration `json:"off"`
 	Zone  bool          `json:"zone,omitempty"` // Until: the time carries a non-UTC location
+	// ZeroValue: the Delay is delay.Delay{} ("The zero value of Delay is a zero delay" - a legal, available delay)
+	ZeroValue bool `json:"zero_value,omitempty"`
 }
 
 func (s delaySpec) String() string {
+	if s.ZeroValue {
+		return "Delay{}"
+	}
 	if s.Until {
 		z := ""
 		if s.Zone {
@@ -52,6 +57,12 @@ var oddZone = time.FixedZone("c20+0330", 3*3600+1800)
 
 func (s delaySpec) build() *builtDelay {
 	b := &builtDelay{spec: s}
+	if s.ZeroValue {
+		b.c0 = wallNow()
+		b.d = delay.Delay{}
+		b.c1 = wallNow()
+		return b
+	}
 	if s.Until {
 		b.t = wallNow().Add(s.Off)
 		if s.Zone {
@@ -78,6 +89,9 @@ var delayOffsets = []time.Duration{
 }
 
 func randDelaySpec(r *vlib.Rand) delaySpec {
+	if r.Chance(0.1) {
+		return delaySpec{ZeroValue: true}
+	}
 	s := delaySpec{Off: delayOffsets[r.Intn(len(delayOffsets))]}
 	if r.Chance(0.45) {
 		s.Until = true
@@ -101,6 +115,13 @@ func checkStamp(b *builtDelay, forStr, untilStr string) string {
 	u, err := time.Parse(time.RFC3339, untilStr)
 	if err != nil {
 		return fmt.Sprintf("%s=%q does not parse as RFC3339: %v", delay.DelayedUntilKey, untilStr, err)
+	}
+	if b.spec.ZeroValue {
+		// delay.Message formats the zero Delay as the zero time and a zero duration
+		if d != 0 || !u.Equal(time.Time{}) {
+			return fmt.Sprintf("%s=%q %s=%q, want the stamp of the zero-value Delay (0s, %s)", delay.DelayedForKey, forStr, delay.DelayedUntilKey, untilStr, time.Time{}.Format(time.RFC3339))
+		}
+		return ""
 	}
 	if !b.spec.Until {
 		if d != b.spec.Off {
